@@ -82,7 +82,7 @@ def dtype_rule(ctx, fi):
     """DTYPE: a buffer allocated with a fixed (default float) dtype must not be filled by subscript
     stores with values derived from the function's array parameters."""
     r, I = ctx.run(fi, max_depth=0)
-    params = set(fi.all_params())
+    params = set(fi.all_params()) - {'self', 'cls'}
     allocs = {}
     n = 0
     for e in I.events:
@@ -91,7 +91,7 @@ def dtype_rule(ctx, fi):
             if va is not None and va.kind == 'call' and va.args[0] in ('zeros', 'empty', 'ones', 'full'):
                 kw = dict(va.args[2])
                 dt = kw.get('dtype')
-                fixed = dt is None or not depends_raw(dt, params)
+                fixed = (dt is None or not depends_raw(dt, params)) and not (dt is not None and 'complex' in pretty(dt))
                 allocs[e.data['name']] = (e, fixed, dt)
             elif e.data['name'] in allocs and e.data.get('aug') is None:
                 del allocs[e.data['name']]
